@@ -57,6 +57,13 @@ def templates(rng):
           ("stack-one-block", lambda m, x: m.stack([x]), a2),
           ("column_stack-one-block", lambda m, x: m.column_stack([x]), v3),
           ("append-nothing", lambda m, x: m.append(x, []), v3),
+          ("vstack-of-a-3d-array", lambda m, x: m.vstack(m.reshape(x, (2, 3, 1)) * onp.ones((2, 3, 4))), a23),
+          ("hstack-of-a-3d-array", lambda m, x: m.hstack(m.reshape(x, (2, 3, 1)) * onp.ones((2, 3, 4))), a23),
+          ("vstack-of-a-2d-array", lambda m, x: m.vstack(x), a23),
+          ("hstack-of-a-2d-array", lambda m, x: m.hstack(x), a23),
+          ("column_stack-of-a-2d-array", lambda m, x: m.column_stack(x), a23),
+          ("stack-of-a-2d-array", lambda m, x: m.stack(x, axis=1), a23),
+          ("concatenate-of-a-3d-array", lambda m, x: m.concatenate(m.reshape(x, (2, 3, 1)) * onp.ones((2, 3, 4)), axis=1), a23),
           ("array-copy", lambda m, x: m.array(x), a2),
           ("array-copy-then-edit", lambda m, x: (lambda c: (c.__setitem__((0, 0), 7.5), c * 1.0)[1])(m.array(a2)) + 0.0 * x, a2),
           ("asarray-is-no-copy", lambda m, x: m.asarray(x) * 1.0, a2, True),
@@ -199,6 +206,36 @@ def templates(rng):
          ("var-ddof", lambda m, x: m.var(x, axis=1, ddof=1), m3 * 2 + onp.arange(6.0).reshape(2, 3))]
     T += [(n_, f_, x_, True) for n_, f_, x_ in O]
     return [t if len(t) == 4 else t + (False,) for t in T]
+
+
+def container_values(out, rng):
+    """functions of dict / list / tuple arguments whose VALUE depends on the order in which the container is walked"""
+    from autograd import value_and_grad
+    from autograd.core import make_vjp as cvjp
+    for rep in range(6):
+        ks = rng.sample(range(10), 4)
+        if ks == sorted(ks):
+            ks = ks[::-1]
+        keys = [k if rep % 2 == 0 else "k%d" % k for k in ks]
+        d0 = {k: onp.array([float(rng.randint(-3, 3)), float(rng.randint(1, 3))]) for k in keys}
+        fs = {"concatenate values": lambda d: anp.concatenate([v for v in d.values()]) * onp.arange(1.0, 9.0),
+              "weighted by position": lambda d: sum((i + 1.0) * anp.sum(d[k]) for i, k in enumerate(d)),
+              "first key": lambda d: d[next(iter(d))] * 3.0, "items order": lambda d: anp.stack([v * (i + 1) for i, (k, v) in enumerate(d.items())]),
+              "keys list": lambda d: anp.array([float(str(k).lstrip("k")) for k in d.keys()]) * anp.sum(d[keys[0]]),
+              "reversed": lambda d: anp.concatenate([d[k] for k in reversed(list(d))]) * onp.arange(1.0, 9.0)}
+        for nm, f in fs.items():
+            out["n"] += 1
+            out["keys"].append("container-value/%s/%s" % (nm, keys))
+            out["dist"]["container-value-cases"] = out["dist"].get("container-value-cases", 0) + 1
+            try:
+                plain = onp.asarray(f(d0))
+                traced = onp.asarray(cvjp(lambda d: anp.sum(f(d)) * 0.0 + f(d), d0)[1])
+                ok = plain.shape == traced.shape and bool(onp.all(plain == traced))
+                if not ok:
+                    out["bad"].append({"oracle": "container-value", "case": nm, "keys": [str(k) for k in keys], "problems": ["value under tracing %s, plain %s" % (traced.tolist(), plain.tolist())],
+                                       "site": {"wrapper": "dict iteration"}})
+            except Exception as ex:
+                out["bad"].append({"oracle": "container-value", "case": nm, "keys": [str(k) for k in keys], "problems": ["raised: %r" % (ex,)], "site": {"wrapper": "dict iteration"}})
 
 
 def type_queries(out):
@@ -361,6 +398,7 @@ def main():
                 out["bad"].append({"oracle": "wrapper-vs-numpy", "case": name, "x": x0.tolist(),
                                    "problems": probs, "site": {"wrapper": name}})
     type_queries(out)
+    container_values(out, rng)
     out["keys"] = sorted(set(out["keys"]))
     print(json.dumps(out, default=str))
 
